@@ -472,6 +472,8 @@ type c07Case struct {
 	gone    []int
 	nname   string // node name ("" = c07Node); the multi-node harness runs one c07Case per node on a shared cache
 	wellPlanned bool // the Device object carries the label secondary-device-well-planned=true
+	devAnn  map[string]string // extension 8 (partition stream): annotations / labels of the Device object (GPU partition table, partition policy)
+	devLbl  map[string]string
 }
 
 func (c *c07Case) nodeName() string {
@@ -748,6 +750,15 @@ func (c *c07Case) applyInventory(invalidate bool) {
 	if c.wellPlanned {
 		dev.Labels = map[string]string{apiext.LabelSecondaryDeviceWellPlanned: "true"}
 	}
+	if c.devAnn != nil {
+		dev.Annotations = c.devAnn
+	}
+	for k, v := range c.devLbl {
+		if dev.Labels == nil {
+			dev.Labels = map[string]string{}
+		}
+		dev.Labels[k] = v
+	}
 	var toks []string
 	n := 0
 	for t := 0; t < 3; t++ {
@@ -756,6 +767,9 @@ func (c *c07Case) applyInventory(invalidate bool) {
 			info := schedulingv1alpha1.DeviceInfo{Type: c07Types[t], Minor: &minor, Health: d.healthy, Resources: c07RL(t, d.res), UUID: fmt.Sprintf("u-%d-%d", t, d.minor)}
 			if d.numa >= 0 {
 				info.Topology = &schedulingv1alpha1.DeviceTopology{SocketID: int32(d.numa), NodeID: int32(d.numa), PCIEID: fmt.Sprintf("pcie-%d", d.pcie)}
+			}
+			if c.devAnn != nil { // partition stream only: a label a pod's device hint can select on
+				info.Labels = map[string]string{"verif-minor": fmt.Sprintf("m%d", d.minor)}
 			}
 			dev.Spec.Devices = append(dev.Spec.Devices, info)
 			v := d.res
